@@ -104,7 +104,18 @@ def corrupt(rng, b):
                 c["sus"] = [s for _, s in keep]
                 c["evs"] = [t for t in c["evs"] if t < zt]
                 c["tss"] = [x for x in c["tss"] if x[0] < zt]
-        exp = "either"
+                # ... and then exactly ONE kind of thing on or after it: a global event, a time signature, or nothing
+                only = rng.choice(["ev", "ts", "none", "none"])
+                if only == "ev":
+                    c["evs"] = sorted(c["evs"] + [zt + rng.choice([0, 1, 50])])
+                elif only == "ts":
+                    c["tss"] = c["tss"] + [[zt + rng.choice([0, 3]), 3, None]]
+        # the zero tempo is the last one: the chart must be rejected exactly when something WRITTEN (a global event, a time signature, a
+        # note's start or end) lies on or after its tick
+        zt = c["tm"][-1][0]
+        governed = (any(t >= zt for t in c["evs"]) or any(x[0] >= zt for x in c["tss"])
+                    or any(t + s >= zt for t, s in zip(c["notes"], c["sus"])))
+        exp = "reject" if governed else "accept"
     else:
         exp = "accept"
     return k, c, exp
